@@ -304,6 +304,12 @@ func inlineMembers(fv reflect.Value, out *Value, amb *int, depth int) {
 		}
 		fv = fv.Elem()
 	}
+	switch fv.Kind() {
+	case reflect.Map, reflect.Slice, reflect.Interface:
+		if fv.IsNil() {
+			return // a missing value has no members, whatever would have folded it
+		}
+	}
 	if val, ok := viaCustom(fv); ok {
 		if val.K != VObj {
 			panic(refuse{"inline registered folder did not emit an object"})
